@@ -25,6 +25,7 @@ import (
 	"github.com/artela-network/artela-evm/vm"
 	"github.com/ethereum/go-ethereum/common"
 	"github.com/ethereum/go-ethereum/core/state"
+	"github.com/ethereum/go-ethereum/core/types"
 	refvm "github.com/ethereum/go-ethereum/core/vm"
 	"github.com/ethereum/go-ethereum/crypto"
 	rtracers "github.com/ethereum/go-ethereum/eth/tracers"
@@ -87,11 +88,17 @@ func sh(b []byte) string {
 	return hex.EncodeToString(crypto.Keccak256(b)[:8])
 }
 
+// errText projects an error to its class: the text, except that an invalid-opcode error drops the opcode's
+// name (the two code bases name the bytes 0x5c-0x5e and 0xb3-0xb4 differently; the class is the same).
 func errText(err error) string {
 	if err == nil {
 		return ""
 	}
-	return err.Error()
+	t := err.Error()
+	if strings.HasPrefix(t, "invalid opcode") {
+		return "invalid opcode"
+	}
+	return t
 }
 
 func bigS(v *big.Int) string {
@@ -328,6 +335,7 @@ type runOpts struct {
 	tracer  bool
 	jpOn    bool
 	tracers bool // attach the inherited tracers as well
+	limit   int
 	eips    []int
 }
 
@@ -371,7 +379,7 @@ func accessListWarm(p *gen.Program) ([]common.Address, []common.Hash) { return p
 
 func runArtela(p *gen.Program, o runOpts) (out runOut) {
 	st := prepState(p)
-	rec := &aRec{stepRec{limit: 60000}}
+	rec := &aRec{stepRec{limit: o.limit}}
 	envo := evmx.EnvOpts{Fork: o.fork, State: st, ExtraEips: o.eips, Origin: gen.EO}
 	e := evmx.NewEnv(envo)
 	var tee *aTee
@@ -463,15 +471,29 @@ func runArtela(p *gen.Program, o runOpts) (out runOut) {
 		}
 		raw, _ := json.Marshal(sl.StructLogs())
 		out.outs = append(out.outs, tracerOut("structLogger", raw, nil))
-		raw, _ = json.Marshal(al.AccessList())
-		out.outs = append(out.outs, tracerOut("accessList", raw, nil))
+		out.outs = append(out.outs, tracerOut("accessList", canonAccessList(al.AccessList()), nil))
 	}
 	return
 }
 
+// canonAccessList renders an access list independently of the (map) order both implementations build it in.
+func canonAccessList(al types.AccessList) []byte {
+	var ls []string
+	for _, t := range al {
+		ks := make([]string, len(t.StorageKeys))
+		for i, k := range t.StorageKeys {
+			ks[i] = k.Hex()
+		}
+		sort.Strings(ks)
+		ls = append(ls, t.Address.Hex()+":"+strings.Join(ks, ","))
+	}
+	sort.Strings(ls)
+	return []byte(strings.Join(ls, ";"))
+}
+
 func runRef(p *gen.Program, o runOpts) (out runOut) {
 	st := prepState(p)
-	rec := &rRec{stepRec{limit: 60000}}
+	rec := &rRec{stepRec{limit: o.limit}}
 	var tracer refvm.EVMLogger
 	var sl *rlogger.StructLogger
 	var al *rlogger.AccessListTracer
@@ -551,8 +573,7 @@ func runRef(p *gen.Program, o runOpts) (out runOut) {
 		}
 		raw, _ := json.Marshal(sl.StructLogs())
 		out.outs = append(out.outs, tracerOut("structLogger", raw, nil))
-		raw, _ = json.Marshal(al.AccessList())
-		out.outs = append(out.outs, tracerOut("accessList", raw, nil))
+		out.outs = append(out.outs, tracerOut("accessList", canonAccessList(al.AccessList()), nil))
 	}
 	return
 }
@@ -671,6 +692,7 @@ func traceCmd(args []string) int {
 	sweep := fs.Int("sweep", 0, "gas limits per program in the gas sweep (0 = none)")
 	batches := fs.Int("batches", 8, "number of batch files")
 	tracersEvery := fs.Int("tracers-every", 4, "attach the inherited tracers to every k-th program")
+	limit := fs.Int("limit", 4000, "callbacks recorded per run (the rest of a longer run is cut on both sides alike)")
 	_ = fs.Parse(args)
 	forks := strings.Split(*forksF, ",")
 	if err := os.MkdirAll(*outDir, 0o755); err != nil {
@@ -702,6 +724,7 @@ func traceCmd(args []string) int {
 		rep.Files = append(rep.Files, fn)
 	}
 	ops := map[int]bool{}
+	batchLines := make([]int, *batches)
 	var mu sync.Mutex
 	type job struct {
 		i    int
@@ -716,21 +739,30 @@ func traceCmd(args []string) int {
 			defer wg.Done()
 			for j := range jobs {
 				p := j.p
-				bi := j.i % *batches
+				mu.Lock()
+				bi := 0
+				for k := range batchLines {
+					if batchLines[k] < batchLines[bi] {
+						bi = k
+					}
+				}
+				batchLines[bi] += 2000 // provisional, corrected below
+				mu.Unlock()
+				written := 0
 				withTracers := *tracersEvery > 0 && j.i%*tracersEvery == 0
 				type variant struct {
 					cfg string
 					o   runOpts
 				}
 				vs := []variant{
-					{"tracer", runOpts{fork: j.fork, gas: p.Gas, tracer: true, tracers: withTracers}},
-					{"notracer+jp", runOpts{fork: j.fork, gas: p.Gas, tracer: false, jpOn: true}},
+					{"tracer", runOpts{fork: j.fork, gas: p.Gas, tracer: true, tracers: withTracers, limit: *limit}},
+					{"notracer+jp", runOpts{fork: j.fork, gas: p.Gas, tracer: false, jpOn: true, limit: *limit}},
 				}
 				if j.i%3 == 0 {
-					vs = append(vs, variant{"tracer+jp", runOpts{fork: j.fork, gas: p.Gas, tracer: true, jpOn: true}})
+					vs = append(vs, variant{"tracer+jp", runOpts{fork: j.fork, gas: p.Gas, tracer: true, jpOn: true, limit: *limit}})
 				}
 				if j.i%5 == 0 && evmx.ForkIndex(j.fork) >= evmx.ForkIndex("Byzantium") {
-					vs = append(vs, variant{"eips3855+3860", runOpts{fork: j.fork, gas: p.Gas, tracer: true, eips: []int{3855, 3860}}})
+					vs = append(vs, variant{"eips3855+3860", runOpts{fork: j.fork, gas: p.Gas, tracer: true, eips: []int{3855, 3860}, limit: *limit}})
 				}
 				var first runOut
 				for vi, v := range vs {
@@ -745,6 +777,7 @@ func traceCmd(args []string) int {
 					fmu[bi].Lock()
 					nl := writeRun(files[bi], meta, a, r)
 					fmu[bi].Unlock()
+					written += nl
 					mu.Lock()
 					rep.Runs++
 					rep.Events += nl
@@ -763,13 +796,14 @@ func traceCmd(args []string) int {
 				}
 				if *sweep > 0 && p.Gas <= 2_000_000 {
 					for _, lim := range sweepLimits(first.evs, p.Gas, *sweep, *seed) {
-						o := runOpts{fork: j.fork, gas: lim, tracer: true}
+						o := runOpts{fork: j.fork, gas: lim, tracer: true, limit: *limit}
 						a := runArtela(p, o)
 						r := runRef(p, o)
 						meta := progMeta{Idx: j.i, Name: p.Name, Fork: j.fork, Entry: p.Entry, Gas: lim, Cfg: "sweep", Events: len(a.evs)}
 						fmu[bi].Lock()
 						nl := writeRun(files[bi], meta, a, r)
 						fmu[bi].Unlock()
+						written += nl
 						mu.Lock()
 						rep.Runs++
 						rep.SweepRuns++
@@ -781,6 +815,7 @@ func traceCmd(args []string) int {
 					}
 				}
 				mu.Lock()
+				batchLines[bi] += written - 2000
 				rep.Programs++
 				rep.ByName[p.Name]++
 				rep.ByFork[j.fork]++
